@@ -23,11 +23,18 @@ RD = {"_GET": "RSg GGet", "_POST": "RSg GPost", "_COOKIE": "RSg GCookie", "_SERV
       "rquery": "RObj", "rheader": "RObj", "local": "RLocal", "arr": "RLocal", "obj": "RLocal", "clo": "RLocal", "loop": "RLocal",
       # state captured by value by the handler closure (route handler = function(...) use ($carr, $cmap, $ccnt)), mutated in
       # place by the request: each request sees it as it was at registration plus its own mutations — a private read
-      "cap_arr": "RLocal", "cap_set": "RLocal", "cap_get": "RLocal", "cap_cnt": "RLocal"}
+      "cap_arr": "RLocal", "cap_set": "RLocal", "cap_get": "RLocal", "cap_cnt": "RLocal",
+      # a closure created by the request, with static locals: fresh statics per closure value — private
+      "clo_static": "RLocal",
+      # per-request data through methods of the request object (all / only / except / query / Cookie header / formValue /
+      # postFormValue / fullUrl / bind into a DTO with property defaults)
+      "rall": "RObj", "ronly": "RObj", "rexcept": "RObj", "rqueryp": "RObj", "rcookie": "RObj", "rformval": "RObj",
+      "rpostform": "RObj", "rurl": "RObj", "rbind": "RObj"}
+RACC = ["rall", "ronly", "rexcept", "rqueryp", "rcookie", "rformval", "rpostform", "rurl", "rbind"]
 GLOBAL_OF = {"_GET": "_GET", "_POST": "_POST", "_COOKIE": "_COOKIE", "_SERVER": "_SERVER",
              "_REQUEST": "_REQUEST", "_REQUESTP": "_REQUEST", "_REQUESTC": "_REQUEST"}
 SG = ["_GET", "_POST", "_COOKIE", "_SERVER", "_REQUEST", "_REQUESTP", "_REQUESTC"]
-PRIV = ["rquery", "rheader", "local", "arr", "obj", "clo", "loop"]
+PRIV = ["rquery", "rheader", "local", "arr", "obj", "clo", "loop", "clo_static"] + RACC
 
 
 def coq_prog(segs, mw=0, mwsg=False, quiet=False):
@@ -167,6 +174,26 @@ def gated_cases(rng, tier):
             cases.append({"segs": capprog, "nreq": 2, "schedule": list(sch), "route": "mux", "mw": mw, "cap": True, "warmup": mw == 0, "gen": "captured-2x2"})
         for sch in ([0, 0, 1, 1, 1, 2, 2, 2, 0], [0, 1, 2, 2, 1, 0, 0, 1, 2]):
             cases.append({"segs": capprog, "nreq": 3, "schedule": sch, "route": "mux", "mw": mw, "cap": True, "group": mw == 1, "warmup": True, "gen": "captured-parked"})
+    # every Request method that returns per-request data, and a per-request closure with static locals: serial orders
+    # after a warm-up (request 99 is odd: it sends the optional field that even requests omit), all 2x2 interleavings,
+    # parked shapes; on the plain mux and behind a middleware
+    accprog = [["rbind", "rall", "ronly", "rexcept", "clo_static"], ["rqueryp", "rcookie", "rformval", "rpostform", "rurl", "rbind", "clo_static"]]
+    for mw in (0, 1):
+        for order in itertools.permutations(range(3)):
+            cases.append({"segs": accprog, "nreq": 3, "schedule": [i for i in order for _ in range(3)], "route": "mux", "mw": mw, "warmup": True, "gen": "request-methods-serial"})
+        for sch in interleavings([3, 3]):
+            cases.append({"segs": accprog, "nreq": 2, "schedule": list(sch), "route": "mux", "mw": mw, "warmup": mw == 0, "gen": "request-methods-2x2"})
+        cases.append({"segs": accprog, "nreq": 3, "schedule": [0, 0, 1, 1, 1, 2, 2, 2, 0], "route": "mux", "mw": mw, "group": True, "warmup": True, "gen": "request-methods-parked"})
+    # a server with onFormat() registered and no onError(): the formatter wrapper is the outermost layer of every route.
+    # Serial requests (must be clean) over every superglobal, plain / behind a middleware / with the middleware reading
+    # $_GET before $next; and the 2x2 interleavings of one program
+    sgprog = [["_GET", "_POST", "_COOKIE"], ["_SERVER", "_REQUEST", "_REQUESTP", "_REQUESTC", "local"]]
+    for mw, mwsg in ((0, False), (1, False), (1, True)):
+        for order in itertools.permutations(range(3)):
+            cases.append({"segs": sgprog, "nreq": 3, "schedule": [i for i in order for _ in range(4 if mwsg else 3)], "route": "mux", "mw": mw, "mwsg": mwsg,
+                          "onformat": True, "warmup": True, "gen": "onformat-serial"})
+    for sch in interleavings([3, 3]):
+        cases.append({"segs": [["_GET", "local"], ["_GET", "rquery"]], "nreq": 2, "schedule": list(sch), "route": "mux", "mw": 1, "onformat": True, "gen": "onformat-2x2"})
     # a middleware that reads $_GET BEFORE $next (after a gate): serial orders (must be clean: the reset happens at the
     # entry of the outermost layer) and every interleaving of two requests (stages: entry, mw read + handler segment 1, ...)
     for mw in (1, 2):
@@ -188,7 +215,7 @@ def gated_cases(rng, tier):
         rng.shuffle(sch)
         c = {"segs": prog, "nreq": n, "schedule": sch, "route": rng.choice(["handler", "mux", "mux"]), "gen": "seeded"}
         if c["route"] == "mux":
-            c.update({"mw": rng.randint(0, 2), "group": rng.random() < 0.4, "warmup": rng.random() < 0.6})
+            c.update({"mw": rng.randint(0, 2), "group": rng.random() < 0.4, "warmup": rng.random() < 0.6, "onformat": rng.random() < 0.25})
             if rng.random() < 0.3:
                 # closure handler with captured state: a key store first, then captured reads mixed into the program
                 c["cap"] = True
@@ -238,6 +265,8 @@ def load_cases(rng, tier):
                       "route": "mux", "mw": 2, "group": n % 16 == 0, "warmup": True})
         cases.append({"segs": [["cap_arr", "cap_set", "cap_cnt", "local"], ["cap_get", "cap_arr", "cap_cnt", "rquery"]], "nreq": n, "gomaxprocs": procs,
                       "rounds": 3 if tier == "quick" else 10, "route": "mux", "mw": n % 2, "cap": True, "warmup": True})
+        cases.append({"segs": [["rbind", "rall", "clo_static", "ronly"], ["rexcept", "rqueryp", "rformval", "rurl", "rbind", "clo_static"]], "nreq": n, "gomaxprocs": procs,
+                      "rounds": 3 if tier == "quick" else 10, "route": "mux", "mw": n % 2, "onformat": n % 16 == 0, "warmup": True})
     return cases
 
 
@@ -271,7 +300,7 @@ def stuck(ck, c, o, what):
     d = o["deadlock"]
     # a request that passed its own gate but turned up at ANOTHER request's gate: it is running with foreign data
     shape = "foreign-gate" if d.get("unexpected_arrivals") else "no-progress"
-    rep = {"case": {k: c[k] for k in ("segs", "nreq", "schedule", "route", "mw", "mwsg", "group", "warmup", "quiet", "cap", "yields", "gen") if k in c},
+    rep = {"case": {k: c[k] for k in ("segs", "nreq", "schedule", "route", "mw", "mwsg", "group", "warmup", "quiet", "cap", "onformat", "yields", "gen") if k in c},
            "executed_order": o.get("order"), "deadlock": d, "finished_responses": o.get("finished"),
            "clause": "private_state_isolated / every request is answered: released request %s (stage %s) neither reached a gate of its own nor "
                      "finished within %s ms; arrivals at other requests' gates: %s" % (d.get("released"), d.get("stage_before"), d.get("after_ms"), d.get("unexpected_arrivals"))}
@@ -336,7 +365,7 @@ def main(ck):
     interfering = 0
     for j, cls in sorted(bad.items(), key=lambda kv: len(gcases[idx[kv[0]]]["schedule"])):
         c, o = gcases[idx[j]], gouts[idx[j]]
-        rep = {"case": {k: c[k] for k in ("segs", "nreq", "schedule", "route", "mw", "mwsg", "group", "warmup", "quiet", "cap", "gen") if k in c}, "executed_order": o["order"], "impl_out": o["resps"], "clauses": cls}
+        rep = {"case": {k: c[k] for k in ("segs", "nreq", "schedule", "route", "mw", "mwsg", "group", "warmup", "quiet", "cap", "onformat", "gen") if k in c}, "executed_order": o["order"], "impl_out": o["resps"], "clauses": cls}
         if 1 in cls:
             ck.broken.append("correspondence:C11.gated")
             ck.violation("tie:gated", dict(rep, clause="model vs implementation (tie)"))
